@@ -15,6 +15,12 @@ pub mod c04;
 #[cfg(feature = "c05")]
 pub mod c05;
 
+#[cfg(feature = "c07")]
+pub mod c07;
+
+#[cfg(feature = "c09")]
+pub mod c09;
+
 #[cfg(feature = "replay")]
 #[cfg(kani)]
 mod replay_active;
